@@ -198,7 +198,15 @@ func newStreamFx(opts ...larking.MuxOption) (*streamFx, error) {
 		r.Set(r.Descriptor().Fields().ByName("data"), protoreflect.ValueOfBytes(rep))
 		return r, nil
 	}
+	unaryFile := func(ctx context.Context, in *dynamicpb.Message) (proto.Message, error) {
+		f := in.Get(in.Descriptor().Fields().ByName("file")).Message()
+		s.mu.Lock()
+		s.got = append(s.got, append([]byte(nil), f.Get(f.Descriptor().Fields().ByName("data")).Bytes()...))
+		s.mu.Unlock()
+		return dynamicpb.NewMessage(in.Descriptor().ParentFile().Messages().ByName("Reply")), nil
+	}
 	fx, err := NewFixture([]*MethodSpec{
+		{Name: "PutFile", In: "Req", Out: "Reply", Unary: unaryFile, Rule: postRule("/c06/put/{name}", "file")},
 		{Name: "Up", In: "Req", Out: "Reply", ClientStream: true, Stream: up, Rule: postRule("/c06/up", "*")},
 		{Name: "Upload", In: "Req", Out: "Reply", ClientStream: true, Stream: upload, Rule: postRule("/c06/upload/{name}", "file")},
 		{Name: "Down", In: "Req", Out: "Reply", ServerStream: true, Stream: down, Rule: postRule("/c06/down", "*")},
@@ -228,6 +236,10 @@ func reqWithData(fx *Fixture, d []byte) *dynamicpb.Message {
 func encodeMsg(fx *Fixture, codec string, d []byte) []byte {
 	m := reqWithData(fx, d)
 	if codec == "json" {
+		// strings that stress the brace scanner's escape handling (the handlers compare `data` only)
+		if k := len(d) % 5; k > 0 {
+			m.Set(m.Descriptor().Fields().ByName("name"), protoreflect.ValueOfString([]string{"", "C:\\dir\\", "q\"}{", "a\\\\", "}\\\"{\\"}[k]))
+		}
 		b, _ := protojson.Marshal(m)
 		return b
 	}
